@@ -25,6 +25,69 @@ type Spec struct {
 // Specs is filled by the init functions of the property files.
 var Specs = map[string]*Spec{}
 
+// Requires lists, for a property whose statement includes the statements of other properties, those properties: C08 ("the
+// kernel's decisions equal the policy's, for arbitrary arguments, whatever the size") includes the compiler properties; C15
+// names the invalid policies of C07, the kernel's refusal of C09 and "the target observes exactly the policy's decisions"
+// (C08); C18's last clause is the configuration path (C14) plus the allow-list semantics (C01).  A tree on which a required
+// property's rules report a violation violates the including property as well, and its check says so (rule `requires`).
+var Requires = map[string][]string{
+	"C08": {"C01", "C02", "C03", "C04", "C05", "C06"},
+	"C15": {"C07", "C09", "C08"},
+	"C18": {"C14", "C01"},
+}
+
+// RunSpec runs a property's rules and then the rules of the properties it requires (transitively), recording one
+// obligation per required property.
+func RunSpec(e *Env, prop string, spec *Spec) {
+	spec.Run(e)
+	seen := map[string]bool{prop: true}
+	var visit func(ps []string)
+	visit = func(ps []string) {
+		for _, dep := range ps {
+			if seen[dep] {
+				continue
+			}
+			seen[dep] = true
+			ds := Specs[dep]
+			if ds == nil {
+				continue
+			}
+			sub := core.NewRun(dep, "quick", e.R.Seed, ds.Level, e.R.VerifDir, e.R.RepoDir)
+			sub.Quiet = true
+			e.mu.Lock()
+			e2 := &Env{R: sub, Repo: e.Repo, GOOS: e.GOOS, GOARCH: e.GOARCH, host: e.host, hostNo: e.hostNo, oracle: e.oracle, e1: e.e1}
+			e.mu.Unlock()
+			func() {
+				defer func() {
+					if x := recover(); x != nil {
+						sub.Unknown("core", "checker-panic", "", fmt.Sprint(x))
+					}
+				}()
+				ds.Run(e2)
+			}()
+			// share what the sub-run loaded
+			e.mu.Lock()
+			if e.host == nil {
+				e.host = e2.host
+			}
+			if e.e1 == nil {
+				e.e1 = e2.e1
+			}
+			if e.oracle == nil {
+				e.oracle = e2.oracle
+			}
+			e.mu.Unlock()
+			if failed, first := sub.FirstFailure(); failed {
+				e.R.Bad("requires", prop+"-requires-"+dep, "", fmt.Sprintf("%s includes %s, and %s does not hold on this tree: %s", prop, dep, dep, first))
+			} else {
+				e.R.OK("requires", prop+"-requires-"+dep, "", fmt.Sprintf("%s includes %s: its %d obligations are discharged on this tree", prop, dep, len(sub.Obligations())))
+			}
+			visit(Requires[dep])
+		}
+	}
+	visit(Requires[prop])
+}
+
 // Oracle is /verif/oracle/oracle.json.
 type Oracle struct {
 	Sources       map[string]string                    `json:"sources"`
